@@ -43,11 +43,22 @@ impl<'a, I: HInput<'a>, E: HErr<'a, I>> Clone for ExtW<'a, I, E> {
 }
 
 impl<'a, I: HInput<'a>, E: HErr<'a, I>> chumsky::extension::v1::ExtParser<'a, I, Val, Ex<E>> for ExtW<'a, I, E> {
+    // Both entry points keep a 36 KiB scratch buffer alive across the call of the wrapped parser: a level of a recursive grammar
+    // that goes through an extension parser needs that much stack (between two stack-growth checks of `recursive`), which the
+    // growth check's red zone (64 KiB) must cover.
     fn parse(&self, inp: &mut InputRef<'a, '_, I, Ex<E>>) -> Result<Val, E> {
-        inp.parse(&self.0)
+        let mut scratch = [0u8; 36 * 1024];
+        scratch[0] = 1;
+        let r = inp.parse(&self.0);
+        std::hint::black_box(&scratch);
+        r
     }
     fn check(&self, inp: &mut InputRef<'a, '_, I, Ex<E>>) -> Result<(), E> {
-        inp.check(&self.0)
+        let mut scratch = [0u8; 36 * 1024];
+        scratch[0] = 1;
+        let r = inp.check(&self.0);
+        std::hint::black_box(&scratch);
+        r
     }
 }
 
